@@ -233,7 +233,9 @@ func (env *Env) eval(x Expr) Val {
 		}
 		for i := 0; i < st.NumFields(); i++ {
 			if st.Field(i).Name() == n.Name {
-				return Val{T: s.GetField(v.Ty, v.T, i), Ty: st.Field(i).Type()}
+				fv := Val{T: s.GetField(v.Ty, v.T, i), Ty: st.Field(i).Type()}
+				env.mapTypeFact(fv)
+				return fv
 			}
 		}
 		fail("no field %s in %s", n.Name, v.Ty)
@@ -641,6 +643,47 @@ func (env *Env) callSpec(n *ECall) Val {
 		}
 		tid := env.e.W.TypeID(ty)
 		return Val{T: env.e.W.UF(fmt.Sprintf("box.%d", tid), []string{s.SortOf(ty)}, "Int", v.T), Ty: tInt}
+	case "fieldsReset":
+		// fieldsReset(p, "A,B"): every field of *p other than the listed ones holds its reset value: maps are empty
+		// (nil or not), numbers 0, booleans false, strings empty, pointers/slices/interfaces nil.  The field list is read from
+		// go/types on every run, so a field added later without a reset fails this clause.
+		v := arg(0)
+		ex := map[string]bool{}
+		if len(n.Args) > 1 {
+			if es, ok := n.Args[1].(*EStr); ok {
+				for _, f := range strings.Split(es.V, ",") {
+					ex[strings.TrimSpace(f)] = true
+				}
+			}
+		}
+		if _, ok := v.Ty.Underlying().(*types.Pointer); ok {
+			v = env.deref(v)
+		}
+		st, ok := v.Ty.Underlying().(*types.Struct)
+		if !ok {
+			fail("fieldsReset of non-struct")
+		}
+		var cs []string
+		for i := 0; i < st.NumFields(); i++ {
+			f := st.Field(i)
+			if ex[f.Name()] {
+				continue
+			}
+			ft := s.GetField(v.Ty, v.T, i)
+			switch u := f.Type().Underlying().(type) {
+			case *types.Map:
+				q := fmt.Sprintf("q.k!%d", env.e.nextQ())
+				dom := sx("select", env.e.heapIn(env.st, s.MapDom(u.Key())), ft)
+				cs = append(cs, fmt.Sprintf("(forall ((%s %s)) (not (select %s %s)))", q, s.SortOf(u.Key()), dom, q))
+			case *types.Slice:
+				cs = append(cs, sx("=", sx("sref", ft), "0"))
+			case *types.Struct:
+				// nested value (e.g. strings.Builder): not constrained here
+			default:
+				cs = append(cs, sx("=", ft, s.Zero(f.Type())))
+			}
+		}
+		return Val{T: and(cs...), Ty: tBool}
 	case "typed":
 		// typed(x, "T"): true, but only meaningful where x has exactly the Go type T (otherwise the clause is out of scope)
 		v := arg(0)
@@ -797,4 +840,15 @@ func (env *Env) addrOf(v Val) Val {
 	env.e.emit(fmt.Sprintf("(assert (not (= %s 0)))", t))
 	v.T = t
 	return v
+}
+
+// mapTypeFact: a non-nil value of a Go map type refers to a map object of that type (so maps of different types are
+// different objects).  True of every well-typed state; asserted wherever a contract reads a map-typed field.
+func (env *Env) mapTypeFact(v Val) {
+	if v.Ty == nil || strings.Contains(v.T, "q.") || strings.Contains(v.T, "!q") {
+		return // mentions a bound variable: cannot be asserted at top level
+	}
+	if mt, ok := v.Ty.Underlying().(*types.Map); ok {
+		env.e.emit(fmt.Sprintf("(assert (=> (not (= %s 0)) (= %s %d)))", v.T, env.e.W.UF("mtype", []string{"Int"}, "Int", v.T), env.e.W.TypeID(mt)))
+	}
 }
